@@ -154,6 +154,18 @@ CLAIMED = {
             'as C01; the option space is split over the three constant-species switches into 8 units run in parallel (every other '
             'option symbolic inside each)',
             'contract-based deductive verification: symbolic configuration, exceptional postconditions', 'DESIGN 2 C11'),
+    'C19': ('proof',
+            'The engine and fuel-burn models are built by their real constructors from the library\'s own Bada3AircraftParameters '
+            'object with symbolic parameters (parameter access is a typing obligation). For the three engine classes the '
+            'methods are executed on arrays of symbolic length and proved equal to the cited BADA-3 equations (3.7-1..3, 3.7-4, '
+            '3.7-8, 3.7-9/10, 3.9-1..6, 3.6-1/2/5, 3.2-1): thrust = total-energy thrust limited by max climb or cruise thrust and '
+            'replaced by descent thrust when negative; cruise fuel-flow correction only in cruise; specific ground range = ground '
+            'speed / fuel flow. update_mass_vector(_backward): anchor mass kept, decrease over each step = trapezoid of '
+            '1/sgr, never increasing. The four drivers return profiles satisfying that relation; fuel-dependent initial mass <= MTOW.',
+            'scipy cumulative_trapezoid by its recurrence, 1/inf = 0, ISA pressure by contract (C12), floats as reals; drivers '
+            'explored for n_iter = 1..3 with calculate_specific_ground_range by contract; final mass > 0 assumed (convergence '
+            'test divides by it)',
+            'contract-based deductive verification with spec functions (AST->z3)', 'DESIGN 2 C19'),
 }
 REASONS_TODO = 'check not built yet (work in progress; see DESIGN.md section 2)'
 
